@@ -405,6 +405,17 @@ func (le *LockEngine) insideGo(fn *Fn) bool {
 	return false
 }
 
+// insideUnjoinedGo: fn runs in a goroutine that is not joined before its enclosing function returns. A joined
+// goroutine ends inside its enclosing function, so what it needs can be asked of that function's callers.
+func (le *LockEngine) insideUnjoinedGo(fn *Fn) bool {
+	for f := fn; f != nil; f = f.Parent {
+		if le.litRole[f] == "go" {
+			return true
+		}
+	}
+	return false
+}
+
 func (le *LockEngine) analyse(fn *Fn, entry Facts) {
 	fl := &Flow{P: le.p, Fn: fn, Entry: entry, InlineDefers: true}
 	fl.Node = func(n ast.Node, f Facts) { le.node(fn, n, f, false) }
@@ -613,7 +624,7 @@ func (le *LockEngine) access(fn *Fn, se *ast.SelectorExpr, v *types.Var, b ast.E
 	} else if le.freshLocal(fn, root) {
 		a.Held = true
 		a.Via = "fresh local object (not yet shared)"
-	} else if rel := le.rel(fn, root, key); rel != "" && !le.insideGo(fn) {
+	} else if rel := le.rel(fn, root, key); rel != "" && !le.insideUnjoinedGo(fn) {
 		a.Lifted = true
 		le.addNeed(fn, lockReq{Class: class, Rel: rel, Mode: mode, Why: fmt.Sprintf("%s of %s in %s", kind, types.ExprString(se), fn.Name), Pos: se.Pos(), Fn: fn, Kind: kind, Field: v.Name()})
 	}
@@ -702,7 +713,7 @@ func (le *LockEngine) call(fn *Fn, c *ast.CallExpr, f Facts, isDefer, isGo bool,
 					// order / recursion
 					le.acquire(fn, c.Pos(), class, base, mode, "direct "+op, f, rec)
 					if root, key, okk := le.p.PathKey(fn, lockBaseExpr(se.X)); okk {
-						if rel := le.rel(fn, root, key); rel != "" && !le.insideGo(fn) {
+						if rel := le.rel(fn, root, key); rel != "" && !le.insideUnjoinedGo(fn) {
 							le.addAcq(fn, lockAcq{Class: class, Rel: rel, Mode: mode, Via: fn.Name})
 						} else {
 							le.addAcq(fn, lockAcq{Class: class, Rel: "", Mode: mode, Via: fn.Name})
@@ -814,7 +825,7 @@ func (le *LockEngine) call(fn *Fn, c *ast.CallExpr, f Facts, isDefer, isGo bool,
 				continue
 			}
 			if ok {
-				if rel := le.rel(fn, root, base); rel != "" && !le.insideGo(fn) {
+				if rel := le.rel(fn, root, base); rel != "" && !le.insideUnjoinedGo(fn) {
 					nq := q
 					nq.Rel = rel
 					nq.Path = append(append([]string{}, q.Path...), fmt.Sprintf("%s (%s)", fn.Name, le.p.Pos(c.Pos())))
@@ -839,7 +850,7 @@ func (le *LockEngine) call(fn *Fn, c *ast.CallExpr, f Facts, isDefer, isGo bool,
 							if i := strings.Index(a.Rel, "."); i >= 0 {
 								suffix = a.Rel[i:]
 							}
-							if rel := le.rel(fn, root, key+suffix); rel != "" && !le.insideGo(fn) {
+							if rel := le.rel(fn, root, key+suffix); rel != "" && !le.insideUnjoinedGo(fn) {
 								le.addAcq(fn, lockAcq{Class: a.Class, Rel: rel, Mode: a.Mode, Via: t.Name})
 							} else {
 								le.addAcq(fn, lockAcq{Class: a.Class, Rel: "", Mode: a.Mode, Via: t.Name})
@@ -1146,7 +1157,7 @@ func (le *LockEngine) ctxAccess(fn *Fn, lit *ast.CompositeLit, obj ast.Expr, cla
 	a.Base = key
 	if le.hasLock(f, key, class, "R") {
 		a.Held, a.Via = true, "held in "+fn.Name
-	} else if rel := le.rel(fn, root, key); rel != "" && !le.insideGo(fn) {
+	} else if rel := le.rel(fn, root, key); rel != "" && !le.insideUnjoinedGo(fn) {
 		a.Lifted = true
 		le.addNeed(fn, lockReq{Class: class, Rel: rel, Mode: "R", Why: fmt.Sprintf("context literal %s in %s", types.ExprString(lit), fn.Name), Pos: lit.Pos(), Fn: fn, Kind: "context", Field: "ctx"})
 	}
